@@ -443,8 +443,13 @@ def select(table: Table, *cols: Col | ColName | str) -> Pipeable:
 
     cols = [ColName(col) if isinstance(col, str) else col for col in cols]
 
+    # a column is selected at most once (at the position of its first occurrence)
+    selected = {}
+    for col in (preprocess_arg(col, table) for col in cols):
+        selected.setdefault(col._uuid, col)
+
     new = copy.copy(table)
-    new._ast = Select(table._ast, [preprocess_arg(col, table) for col in cols])
+    new._ast = Select(table._ast, list(selected.values()))
 
     return new
 
